@@ -338,6 +338,23 @@ func driveSec1(c *ctx) {
 		xss = append(xss, new(big.Int).Add(span, randBig(r, span))) // x + n >= p: bit 1 must fail
 	}
 	xss = append(xss, add(span, -1), span, add(span, 1), big.NewInt(0), big.NewInt(1), add(bigN, -1))
+	// x whose LOW limbs pass for "x < p - n" while a higher limb is set (round 9): a * 2^(64 j) + d with d < p - n, every limb j;
+	// the bound p - n is 129 bits wide, so a comparison that walks the limbs of the bound instead of those of x never looks further
+	for j := uint(1); j <= 3; j++ {
+		for t := 0; t < c.scale(4, 24); t++ {
+			a := add(randBig(r, pow2(16)), 1)
+			if t%2 == 0 {
+				a = big.NewInt(int64(1 + t/2))
+			}
+			x := new(big.Int).Add(new(big.Int).Lsh(a, 64*j), randBig(r, span))
+			if j == 2 && t%3 == 0 {
+				x = new(big.Int).Add(new(big.Int).Lsh(a, 129), randBig(r, pow2(128))) // just above the bound's width
+			}
+			if x.Cmp(bigN) < 0 {
+				xss = append(xss, x)
+			}
+		}
+	}
 	for i, xs := range xss {
 		for id := 0; id < 256; id++ {
 			if id >= 6 && (id+i)%29 != 0 && !(i < 3) {
